@@ -30,7 +30,9 @@ def seg_text():
 def item():
     negative = st.sampled_from([{"attrs": {"bold": False}, "color": None, "bgcolor": None, "link": None}, {"attrs": {"italic": False, "underline": False}, "color": None, "bgcolor": None, "link": None},
                                 {"attrs": {"bold": False}, "color": None, "bgcolor": None, "link": "https://n.example"}])
-    plus = st.one_of(st.none(), st.none(), st.none(), negative, st.sampled_from(GS.PALETTE), GS.style_spec(max_attrs=3))
+    # other ways of deriving a style from one that has already been written: update_link / without_color / copy
+    derive = st.sampled_from([{"derive": "update_link", "link": "https://other.example/x"}, {"derive": "update_link", "link": None}, {"derive": "without_color"}, {"derive": "copy"}])
+    plus = st.one_of(st.none(), st.none(), st.none(), negative, st.sampled_from(GS.PALETTE), GS.style_spec(max_attrs=3), derive, derive)
     seg = st.builds(lambda t, s, p: {"t": t, "s": s, "plus": p}, seg_text(), st.one_of(st.none(), GS.style_spec(), GS.style_spec(), st.sampled_from(GS.PALETTE)), plus)
     pr = st.builds(lambda segs, route: ["print", segs, route], st.lists(seg, min_size=1, max_size=6), st.sampled_from(["raw", "raw", "text", "print_style"]))
     ctl = st.sampled_from(CONTROLS).map(lambda k: ["ctl", k])
@@ -64,10 +66,13 @@ class Stream(Part):
 
     def strategy(self, tier):
         return st.builds(
-            lambda items, a, b, nc, term, lw, rec: {"items": items, "systems": [a, b], "no_color": nc, "terminal": term, "legacy": lw, "record": rec},
+            lambda items, a, b, nc, term, lw, rec, env: {"items": items, "systems": [a, b], "no_color": nc if env is None else env[1], "no_color_arg": None if env is None else env[0], "env_no_color": False if env is None else env[2],
+                                                        "terminal": term, "legacy": lw, "record": rec},
             st.lists(item(), min_size=1, max_size=5),
             st.sampled_from(SYSTEMS), st.sampled_from(SYSTEMS),
             st.sampled_from([False, False, False, True]), st.sampled_from([True, True, False, [1, 0], [0, 1], [1, 1], [0, 0]]), st.sampled_from([False, False, False, True]), st.sampled_from([False, False, True]),
+            # (no_color argument, effective setting, NO_COLOR in the environment): an explicit argument wins over the environment, None means "look at the environment"
+            st.sampled_from([None, None, None, [None, True, True], [None, False, False], [False, False, True], [True, True, False], [False, False, False], [True, True, True]]),
         )
 
     def check(self, spec, ctx):
@@ -111,7 +116,12 @@ class Stream(Part):
                 files, force, terms = [TtyFile(mode[0]), TtyFile(mode[1])], None, [bool(mode[0]), bool(mode[1])]
                 ctx.cls("file-replaced")
             f = files[0]
-            con = sut(Console, file=f, color_system=system, force_terminal=force, no_color=spec["no_color"], legacy_windows=spec["legacy"], width=1000, record=spec.get("record", False), _environ={})
+            if "no_color_arg" in spec and (spec["no_color_arg"] is not None or spec.get("env_no_color")):
+                con = sut(Console, file=f, color_system=system, force_terminal=force, no_color=spec["no_color_arg"], legacy_windows=spec["legacy"], width=1000, record=spec.get("record", False),
+                          _environ={"NO_COLOR": "1"} if spec.get("env_no_color") else {})
+                ctx.cls("no_color-arg-%s-env-%s" % (spec["no_color_arg"], spec.get("env_no_color")))
+            else:
+                con = sut(Console, file=f, color_system=system, force_terminal=force, no_color=spec["no_color"], legacy_windows=spec["legacy"], width=1000, record=spec.get("record", False), _environ={})
             expected = []  # ("ch", c, attrs, fg, bg, link) | ("ctl", text)
             term_now = terms[0]
             switch_at = (len(spec["items"]) + 1) // 2 if len(files) == 2 else None
@@ -148,9 +158,23 @@ class Stream(Part):
                         sut(con.print, Raw([Segment(t, base)]), end="")
                         styled.append((t, sp))
                         if sg.get("plus") is not None and base is not None:
-                            derived = sut(lambda: base + GS.build_style(sg["plus"]))
+                            plus = sg["plus"]
+                            if "derive" in plus:
+                                if plus["derive"] == "update_link":
+                                    derived = sut(base.update_link, plus["link"])
+                                    dspec = dict(sp, link=plus["link"])
+                                elif plus["derive"] == "without_color":
+                                    derived = sut(lambda: base.without_color)
+                                    dspec = dict(sp, color=None, bgcolor=None)
+                                else:
+                                    derived = sut(base.copy)
+                                    dspec = dict(sp)
+                                ctx.cls("derived-" + plus["derive"])
+                            else:
+                                derived = sut(lambda: base + GS.build_style(plus))
+                                dspec = GS.merge(sp, plus)
                             sut(con.print, Raw([Segment(t or "d", derived)]), end="")
-                            styled.append((t or "d", GS.merge(sp, sg["plus"])))
+                            styled.append((t or "d", dspec))
                     ctx.cls("derived-after-write")
                 elif route == "raw":
                     sut(con.print, Raw([Segment(t, s) for t, s, _ in segs]), end="")
